@@ -702,6 +702,63 @@ int main(int argc, char ** argv) {
         printf("RESULT %s\n", o.str().c_str());
         return 0;
     }
+    if (mode == "defaults") {
+        // drv_codec defaults <dir>: a default-constructed object of every class written through File (restore points
+        // on/off, level 0/6), read back through File: what comes back for it (C17, file level)
+        std::string dir = argv[2];
+        signal(SIGALRM, files_alarm);
+        long n = 0;
+        for (uint32_t code : known_codes()) {
+            if (code == 10) continue;
+            for (int rp = 0; rp <= 1; rp++) {
+                for (int level : {0, 6}) {
+                    g_case = "default object of code " + std::to_string(code) + " rp=" + std::to_string(rp) + " level=" + std::to_string(level);
+                    alarm(60);
+                    std::string fn = dir + "/d_" + std::to_string((long) getpid()) + ".blf";
+                    std::string cls;
+                    long ctorCode;
+                    {
+                        File f;
+                        f.compressionLevel = level;
+                        f.writeRestorePoints = rp != 0;
+                        f.open(fn.c_str(), std::ios_base::out);
+                        ObjectHeaderBase * o = File::createObject((ObjectType) code);
+                        cls = refl::class_name(o);
+                        ctorCode = (long) (uint32_t) o->objectType;
+                        f.write(o);
+                        f.close();
+                    }
+                    long delivered = 0;
+                    std::string backCls = "none";
+                    long backCode = -1;
+                    {
+                        File f;
+                        f.open(fn.c_str(), std::ios_base::in);
+                        for (;;) {
+                            ObjectHeaderBase * o = f.read();
+                            if (!o) break;
+                            if (delivered == 0) { backCls = refl::class_name(o); backCode = (long) (uint32_t) o->objectType; }
+                            delivered++;
+                            delete o;
+                        }
+                        f.close();
+                    }
+                    unlink(fn.c_str());
+                    JObj r;
+                    r.puts("name", cls + "/rp" + std::to_string(rp) + "/level" + std::to_string(level));
+                    r.put("code", (long) code).puts("cls", cls).put("ctorCode", ctorCode).putb("rp", rp != 0).put("level", (long) level)
+                        .put("delivered", delivered).puts("backCls", backCls).put("backCode", backCode);
+                    printf("DEF %s\n", r.str().c_str());
+                    n++;
+                }
+            }
+        }
+        alarm(0);
+        JObj o;
+        o.puts("driver", "codec_defaults").put("paths", n).put("steps", n).put("mismatches", 0);
+        printf("RESULT %s\n", o.str().c_str());
+        return 0;
+    }
     if (mode == "files") {
         // drv_codec files <dir> <seed> <quick|thorough> [poison]: sequences of objects of all classes written through File
         // and read back through File over a configuration grid (native threads).
